@@ -278,8 +278,10 @@ static void run_start(const vh::Case &cs) {
     bool ok = !cs.ops.empty() && cs.ops.size() <= 4;
     for (auto &op : cs.ops) {
         if (op.size() < 2 || op[0] != 1) ok = false;
-        for (size_t i = 1; i < op.size(); i++)
+        for (size_t i = 1; i < op.size(); i++) {
             if (op[i] < 0 || op[i] > 400) ok = false;
+            if (i > 1 && op[i] < op[i - 1]) ok = false;   // time points of one coroutine must not go backwards
+        }
     }
     if (!ok) {
         for (size_t i = 0; i < cs.ops.size(); i++) vh::print_obs({1});
@@ -317,7 +319,9 @@ static void sd_point(const char *id) {
     while (!sd_release.load()) std::this_thread::sleep_for(std::chrono::milliseconds(1));
 }
 
-static void run_stop_race(const std::vector<long> &op) {
+static void run_stop_race(const std::vector<long> &op, bool use_pool) {
+    std::unique_ptr<thread_pool> pool;
+    if (use_pool) pool.reset(new thread_pool(2));
     long returned = 0, far_state = 0;
     int id_far = 0;
     std::unique_ptr<future<void>> ffar;
@@ -328,7 +332,7 @@ static void run_stop_race(const std::vector<long> &op) {
     if (op[1] > 0)
         ffar.reset(new future<void>(sch->sleep_until(std::chrono::system_clock::now() + std::chrono::milliseconds(op[1]), &id_far)));
     sd_armed.store(1);
-    sch->start(thr);
+    if (use_pool) sch->start(*pool); else sch->start(thr);
     for (int i = 0; i < 1500 && !sd_reached.load(); i++) std::this_thread::sleep_for(std::chrono::milliseconds(1));
     std::atomic<int> done{0};
     std::thread killer([&] { delete sch; done.store(1); });
@@ -350,11 +354,15 @@ static void run_stop_race(const std::vector<long> &op) {
 
 static void run_thread(const vh::Case &cs) {
     for (auto &op : cs.ops) {
-        if (op.size() == 2 && op[0] == 2 && (op[1] == 0 || (op[1] >= 10000 && op[1] <= 100000))) {
-            run_stop_race(op);
+        if (op.size() == 2 && (op[0] == 2 || op[0] == 4) && (op[1] == 0 || (op[1] >= 10000 && op[1] <= 100000))) {
+            run_stop_race(op, op[0] == 4);
             continue;
         }
-        if (op.size() != 3 || op[0] != 1 || op[1] < 0 || op[1] > 100000 || op[2] < 1 || op[2] > 200) {
+        // ops 3 / 4: the same scenarios with the scheduler started in a thread_pool (worker_coro<true>)
+        bool use_pool = !op.empty() && op[0] == 3;
+        std::unique_ptr<thread_pool> pool;
+        if (use_pool) pool.reset(new thread_pool(2));
+        if (op.size() != 3 || (op[0] != 1 && op[0] != 3) || op[1] < 0 || op[1] > 100000 || op[2] < 1 || op[2] > 200) {
             vh::print_obs({1});
             continue;
         }
@@ -364,7 +372,7 @@ static void run_thread(const vh::Case &cs) {
         std::thread thr;
         {
             scheduler sch;
-            sch.start(thr);
+            if (use_pool) sch.start(*pool); else sch.start(thr);
             auto t0 = std::chrono::system_clock::now();
             if (op[1] > 0) ffar.reset(new future<void>(sch.sleep_until(t0 + std::chrono::milliseconds(op[1]), &id_far)));
             std::this_thread::sleep_for(std::chrono::milliseconds(60));   // let the worker block
